@@ -59,7 +59,7 @@ func (e *kvElection) heartbeatLoop(ctx context.Context) {
 				}
 			}
 
-			verifYield("heartbeat.tick")
+			e.verifYield("heartbeat.tick")
 			currentRev := e.revision.Load()
 
 			token := e.Token()
@@ -119,7 +119,7 @@ func (e *kvElection) heartbeatLoop(ctx context.Context) {
 				updateErr = result.err
 			}
 
-			verifYield("heartbeat.result")
+			e.verifYield("heartbeat.result")
 			heartbeatStartTime := time.Now()
 			if updateErr != nil {
 				log := e.getLogger()
